@@ -254,7 +254,24 @@ def check_layout(laid):
 
 # ----------------------------------------------------------------------------------------------------------
 
-def tlc_table(ctx, vols, name):
+def tlc_table(ctx, vols, name, shards=1):
+    if shards > 1 and len(vols) > 4000:
+        import concurrent.futures
+        import threading
+        lock, orig = threading.Lock(), ctx.subdir
+
+        def locked(n):
+            with lock:
+                return orig(n)
+        ctx.subdir = locked
+        try:
+            step = (len(vols) + shards - 1) // shards
+            parts = [vols[i:i + step] for i in range(0, len(vols), step)]
+            with concurrent.futures.ThreadPoolExecutor(len(parts)) as ex:
+                outs = list(ex.map(lambda a: tlc_table(ctx, a[1], "%s_%d" % (name, a[0])), enumerate(parts)))
+        finally:
+            ctx.subdir = orig
+        return [r for o in outs for r in o]
     d = ctx.subdir("table_" + name)
     inp, outp = os.path.join(d, "cases.ndjson"), os.path.join(d, "out.json")
     common.write_ndjson(inp, vols)
@@ -313,18 +330,20 @@ def run(ctx):
     mc_run("GadgetLayout_mc_prefix.cfg", ctx.pick(8, 16), 1500)
     bound_note = None
     if not ctx.quick:
-        est = geo.wall * 40
+        est = geo.wall * 30
         if est <= 1500:
             mc_run("GadgetLayout_mc_thorough.cfg", 16, 2400, heap="16g")
+            mc_run("GadgetLayout_mc_rich.cfg", 16, 2400, heap="16g")
         else:
-            bound_note = "MaxStructs=4 skipped: estimated %.0fs on this (loaded) machine from the MaxStructs=3 run" % est
+            bound_note = ("MaxStructs=4 / rich value sets skipped: estimated %.0fs on this (loaded) machine from the "
+                          "MaxStructs=3 run" % est)
             ctx.log(bound_note)
     big = max(mcs.values(), key=lambda r: r.distinct)
 
     # ---- 2. conformance
-    vols = gen_systematic() + gen_random(rng, ctx.pick(6000, 120000))
+    vols = gen_systematic() + gen_random(rng, ctx.pick(4000, 40000))
     ctx.log("%d volumes in the reference's range, %d beyond" % (len(vols), len(HUGE)))
-    table = tlc_table(ctx, vols, "vols")
+    table = tlc_table(ctx, vols, "vols", shards=ctx.pick(2, 6))
     ctx.log("TLC table done")
     cases = []
     for i, v in enumerate(vols):
@@ -362,7 +381,8 @@ def run(ctx):
         # (the property) directly on the real layout
         hits = check_layout(row["laid"]) if laid_ok else []
         for inv, detail in hits:
-            key = "C38 %s: %s %s" % (inv, case[0] if ref is None else "", describe(v))
+            key = "C38 %s: %s%s" % (inv, ("huge-quantities(uint64 wrap-around) %s " % case[0]) if ref is None else "",
+                                    describe(v))
             if key not in viol:
                 viol[key] = Violation(
                     key=key, desc="real code accepts the volume but %s (%s)" % (detail, inv),
